@@ -13,7 +13,8 @@ from props.C06 import coq_curve, gen_curve
 
 class P(Prop):
     ID = "C05"
-    THEOREMS = ["C05_no_full_pti", "C05_full_pti", "C05_load_sharing_step", "C05_both_within_eps", "C05_loss"]
+    THEOREMS = ["C05_no_full_pti", "C05_full_pti", "C05_load_sharing_step", "C05_both_within_eps", "C05_loss",
+                "C05_combined_balance_computes_the_step_formulas"]
     MAKE_TARGETS = ["theories/Props/C05.vo", "theories/Check/Check_C04.vo"]
     CHECK_REQUIRE = ("From Coq Require Import QArith List Bool.\nFrom Feems Require Import Base.Num Base.Pchip Model.Component "
                      "Model.Shaft Model.Hybrid Check.Check_C06 Check.Check_C04.\nOpen Scope Q_scope.")
